@@ -440,6 +440,10 @@ type c11SignCase struct {
 	OpaqueAt int `json:"opaque_at,omitempty"`
 	// FailBytes: the failing signer returns bytes together with its error
 	FailBytes bool `json:"fail_bytes,omitempty"`
+	// NilAt >= 1: that entry (minus one) of the Signatures list is a nil pointer; SignedAt >= 1: that entry already
+	// holds signature bytes. Whatever the signer count, Sign does not report success for such a message
+	NilAt    int `json:"nil_at,omitempty"`
+	SignedAt int `json:"signed_at,omitempty"`
 }
 
 // trailingDERSigner wraps a real ECDSA key; its signatures carry trailing bytes.
@@ -480,7 +484,32 @@ func checkC11Sign(c c11SignCase) error {
 		}
 		ss = append(ss, sp)
 	}
-	err := m.Sign(refcose.NewEntropy(nil), nil, ss...)
+	if c.NilAt >= 1 && c.NilAt <= len(m.Signatures) {
+		m.Signatures[c.NilAt-1] = nil
+	}
+	if c.SignedAt >= 1 && c.SignedAt <= len(m.Signatures) && m.Signatures[c.SignedAt-1] != nil {
+		m.Signatures[c.SignedAt-1].Signature = []byte{1, 2, 3}
+	}
+	err := func() (err error) {
+		defer func() {
+			if r := recover(); r != nil && c.NilAt >= 1 {
+				err = fmt.Errorf("panic: %v", r) // a nil entry may be refused by a panic; never by success
+			} else if r != nil {
+				panic(r)
+			}
+		}()
+		return m.Sign(refcose.NewEntropy(nil), nil, ss...)
+	}()
+	if c.NilAt >= 1 || c.SignedAt >= 1 {
+		if err == nil {
+			return finding("sign-succeeds", "SignMessage.Sign returns nil for %+v: the list holds a nil entry / an entry that was signed before", c)
+		}
+		if _, encErr := m.MarshalCBOR(); encErr == nil && c.NilAt >= 1 {
+			return finding("encodes-half-signed", "a COSE_Sign whose signature list holds a nil entry is encodable")
+		}
+		stats.Class("sign-side/odd-slots")
+		return nil
+	}
 	filled := 0
 	for _, s := range m.Signatures {
 		if len(s.Signature) > 0 {
@@ -566,6 +595,27 @@ func TestC11_SignSide(t *testing.T) {
 							stats.Sample("sign-side", c)
 						}
 					}
+				}
+			}
+		}
+	}
+	// nil entries and already signed entries at every position, with as many signers as entries, as open entries, one less, one more
+	for n := 1; n <= 4; n++ {
+		for at := 1; at <= n; at++ {
+			for _, d := range []int{-2, -1, 0, 1} {
+				if n+d < 0 {
+					continue
+				}
+				for _, which := range []int{0, 1} {
+					c := c11SignCase{N: n, Delta: d, FailAt: -1}
+					if which == 0 {
+						c.NilAt = at
+					} else {
+						c.SignedAt = at
+					}
+					cnt++
+					stats.Eval()
+					judge(t, "c11sign", c, checkC11Sign)
 				}
 			}
 		}
